@@ -448,7 +448,8 @@ Section Cls.
         cbn [py_not py_and bind py_is_not_none py_is_none negb].
         destruct (str_in (f_name f) (required_attr apd_run C)); cbn [negb andb bind].
         - cbn [py_try_Exception]. rewrite py_setitem_sdict. reflexivity.
-        - destruct (str_startswith (s2p "Optional[") s); cbn [negb bind py_format];
+        - unfold add_none, wrap_optional, opt_prefix.
+          destruct (str_startswith (s2p "Optional[") s); cbn [negb bind py_format];
             rewrite py_setitem_sdict; reflexivity. }
     cbn [bind]. do 2 f_equal. unfold type_info_step.
     rewrite (fold_set_fresh f_name (fun f => snd (field_text (required_attr apd_run C) f)) (nonconst C)
@@ -458,11 +459,9 @@ Section Cls.
 
   (* ---------------------------------------------------------------- reading the texts back *)
 
-  (* has-a-default as the generator decides it on the text = as the model decides it on the token *)
-  Lemma tok_of_default (inreq : bool) s :
-    (if negb inreq && negb (starts_opt_text s) then true else ends_none_text s)
-    = snd (if negb inreq && negb (starts_optional (tok_of s)) then (tt, true) else (tt, ends_none (tok_of s))).
-  Proof. unfold tok_of. destruct inreq, (starts_opt_text s), (ends_none_text s); reflexivity. Qed.
+  (* has-a-default of a required field as the generator leaves it in the text = as the model reads it off the token *)
+  Lemma tok_of_default s : ends_none (tok_of s) = ends_none_text s.
+  Proof. unfold tok_of. destruct (starts_opt_text s), (ends_none_text s); reflexivity. Qed.
 
   Lemma str_endswith_app suffix s : str_endswith suffix (s ++ suffix) = true.
   Proof.
@@ -479,8 +478,8 @@ Section Cls.
     apply andb_true_iff in H as [H1 H2]. rewrite H1. apply IH. exact H2.
   Qed.
 
-  Lemma ends_none_wrap s : ends_none_text (wrap_optional s) = true.
-  Proof. unfold wrap_optional. rewrite app_assoc. apply ends_none_app. reflexivity. Qed.
+  Lemma ends_none_add s : ends_none_text (add_none s) = true.
+  Proof. unfold add_none. apply ends_none_app. reflexivity. Qed.
 
   Lemma ends_none_with_none s : ends_none_text (with_none_text s) = true.
   Proof.
@@ -494,14 +493,9 @@ Section Cls.
     apply map_ext_in. intros f Hf. apply filter_In in Hf as [Hin Hnc].
     destruct (ext_ok_rendered C f Hok Hin Hnc) as [s [_ [Hr Ht]]].
     unfold abs_entry, StubsSrcView.field_text, stub_entry. rewrite Hr, <- Ht. cbn [fst snd].
-    pose proof (tok_of_default (str_in (f_name f) (required_attr apd_run C)) s) as Hd.
-    destruct (negb (str_in (f_name f) (required_attr apd_run C)) && negb (starts_opt_text s)) eqn:E1;
-      destruct (negb (str_in (f_name f) (required_attr apd_run C)) && negb (starts_optional (tok_of s))) eqn:E2;
-      cbn [snd] in Hd; f_equal.
-    - apply ends_none_wrap.
-    - rewrite ends_none_wrap. exact Hd.
-    - exact Hd.
-    - exact Hd.
+    destruct (negb (str_in (f_name f) (required_attr apd_run C))); cbn [snd]; f_equal.
+    - apply ends_none_add.
+    - symmetry. apply tok_of_default.
   Qed.
 
   Theorem none_text_abs : forall l, map abs_entry (none_text l) = with_none (map abs_entry l).
@@ -610,10 +604,10 @@ Local Open Scope string_scope.
 Definition ex_fld (n : string) (k : fkind) (d : bool) (t : tok) : fdecl :=
   {| f_name := s2p n; f_kind := k; f_default := d; f_tok := t |}.
 
-(* three levels: a Constant overriding an inherited field, a default, an AnyOf[X, None] field, _required given
-   explicitly, additional properties switched off at the leaf (the class of Props/C16.v [ex_hier]) *)
+(* three levels: a Constant overriding an inherited field, a default, an optional and a REQUIRED AnyOf[X, None] field
+   (both rendered "Optional[int]" by get_type_info), _required given explicitly, additional properties switched off at the leaf (the class of Props/C16.v [ex_hier]) *)
 Definition ex_src_hier : hier :=
-  [ {| b_fields := [ex_fld "val" KField false TPlain; ex_fld "opt" KField false TOptNone];
+  [ {| b_fields := [ex_fld "val" KField false TPlain; ex_fld "opt" KField false TOptBare; ex_fld "req" KField false TOptBare];
        b_required := None; b_optional := [s2p "opt"]; b_additional := Some false |};
     {| b_fields := [ex_fld "subject" KConst false TPlain; ex_fld "name" KField false TPlain];
        b_required := None; b_optional := []; b_additional := None |};
@@ -635,12 +629,12 @@ Example ext_ok_satisfiable :
   nodup_names (map fst (type_info_text true ex_fobj ex_ext PNone PNone ex_src_hier)) = true /\
   type_info_text true ex_fobj ex_ext PNone PNone ex_src_hier
   = [(s2p "i", s2p "Optional[int] = None"); (s2p "name", s2p "int"); (s2p "val", s2p "int");
-     (s2p "opt", s2p "Optional[int] = None")] /\
+     (s2p "opt", s2p "Optional[int] = None"); (s2p "req", s2p "Optional[int]")] /\
   (ti <- get_all_type_info ex_ext ex_heap (ref o_cls) PNone PNone ;; get_ordered_args ex_heap ti)
-  = Ok (sdict [(s2p "name", s2p "int"); (s2p "val", s2p "int"); (s2p "i", s2p "Optional[int] = None");
-               (s2p "opt", s2p "Optional[int] = None")]) /\
+  = Ok (sdict [(s2p "name", s2p "int"); (s2p "val", s2p "int"); (s2p "req", s2p "Optional[int]");
+               (s2p "i", s2p "Optional[int] = None"); (s2p "opt", s2p "Optional[int] = None")]) /\
   m_kwparams (stub_init true true ex_src_hier)
-  = [(s2p "name", false); (s2p "val", false); (s2p "i", true); (s2p "opt", true)].
+  = [(s2p "name", false); (s2p "val", false); (s2p "req", false); (s2p "i", true); (s2p "opt", true)].
 Proof. vm_compute. repeat split; reflexivity. Qed.
 
 (* the side condition is needed: when the text the oracle returns for a field does not have the field's token
